@@ -8,10 +8,14 @@ H = [
  dict(name="point.IsCanonical", pkg=PKG, files=F, entry="HarnessPointIsCanonical", mode="bv", validate=24,
       functions=["edwards25519.(*point).IsCanonical"], bound="all 2^256 byte strings of length 32; lengths 0, 31",
       mutants=[dict(id="C08c2", file="group/edwards25519/point.go", old="\tfor i := 30; i > 0; i-- {\n\t\tc |= s[i] ^ 0xff", new="\tfor i := 30; i > 1; i-- {\n\t\tc |= s[i] ^ 0xff")]),
- dict(name="point.HasSmallOrder", pkg=PKG, files=F, entry="HarnessHasSmallOrder", mode="bv", globals=["weakKeys"], no_replay=True,
+ dict(name="point.HasSmallOrder", pkg=PKG, files=F, entry="HarnessHasSmallOrder", mode="bv", globals=["weakKeys"], replay_entry="HarnessHasSmallOrderReplay", replay_models=12,
       renames={"(*go.dedis.ch/kyber/v4/group/edwards25519.point).MarshalBinary": "canonStubMarshal"},
       stubs=["(*point).MarshalBinary -> harness stub returning 32 symbolic bytes (the encoder is verified separately: feToBytes, ToBytes)"],
       functions=["edwards25519.(*point).HasSmallOrder"], bound="all 2^256 encodings",
       mutants=[dict(id="C08c3", file="group/edwards25519/point.go", old="\tfor j := range 31 {\n\t\tfor i := range 5 {", new="\tfor j := range 30 {\n\t\tfor i := range 5 {")]),
+ dict(name="point.HasSmallOrder.torsion", pkg=PKG, files=F, entry="HarnessTorsionListed", mode="bv", globals=["weakKeys"], replay_entry="HarnessTorsionListedReplay",
+      renames={"(*go.dedis.ch/kyber/v4/group/edwards25519.point).MarshalBinary": "canonStubMarshal"},
+      stubs=["(*point).MarshalBinary -> harness stub returning the listed encoding"],
+      functions=["edwards25519.(*point).HasSmallOrder"], bound="the 8 torsion points (symbolic index into a list written independently of weakKeys)"),
 ]
 json.dump(dict(property="C08", harnesses=H), open(os.path.join(os.path.dirname(__file__), "..", "specs", "C08.json"), "w"), indent=1)
